@@ -2,6 +2,7 @@
 package main
 
 import (
+	"encoding/json"
 	"flag"
 	"fmt"
 	"os"
@@ -23,6 +24,8 @@ func main() {
 	tags := flag.String("tags", "", "build tags")
 	goarch := flag.String("goarch", "", "GOARCH for loading")
 	list := flag.Bool("list", false, "list registered properties")
+	useCHA := flag.Bool("cha", false, "use the CHA call graph (superset of VTA) for reachability")
+	extra := flag.String("extra", "", "JSON file whose object is merged into the evidence coverage (thorough tier: self-test and configuration results)")
 	flag.Parse()
 	if *list {
 		for _, id := range rules.IDs() {
@@ -45,7 +48,7 @@ func main() {
 			os.Exit(2)
 		}
 	}
-	p, lerr := load.Load(load.Options{Dir: *repo, Tags: *tags, GOARCH: *goarch})
+	p, lerr := load.Load(load.Options{Dir: *repo, Tags: *tags, GOARCH: *goarch, CHA: *useCHA})
 	worst := 0
 	for _, id := range ids {
 		pr := rules.Registry[id]
@@ -69,6 +72,17 @@ func main() {
 			stats["functions_path_enumerated"] = eng.FuncsEnumerated
 			stats["paths_enumerated"] = eng.PathsEnumerated
 			stats["consistency_queries"] = eng.Queries
+			stats["call_graph"] = map[bool]string{true: "CHA", false: "VTA seeded by CHA"}[*useCHA]
+			if *extra != "" {
+				if b, err := os.ReadFile(*extra); err == nil {
+					var m map[string]any
+					if json.Unmarshal(b, &m) == nil {
+						for k, v := range m {
+							stats[k] = v
+						}
+					}
+				}
+			}
 			return chk.Finish(*verif, *out, stats)
 		}()
 		if code > worst {
